@@ -8,6 +8,7 @@ import (
 	"fmt"
 	"net/http"
 	"net/http/httptest"
+	neturl "net/url"
 	"regexp"
 	"sort"
 	"strconv"
@@ -486,9 +487,13 @@ func c11Flow(c *Ctx) {
 		for it := 0; it < c.N(4, 30); it++ {
 			mode := r.PickS("segtimeline_1", "segtimelinenr_1")
 			ttl := r.Pick(60, 30, 600)
-			extra := r.PickS("", "", "periods_60/", "tsbd_30/", "periods_120/tsbd_10/", "ato_1.5/chunkdur_0.25/")
+			extra := r.PickS("", "", "periods_60/", "tsbd_30/", "periods_120/tsbd_10/", "ato_1.5/chunkdur_0.25/", "periods_60/ato_1/", "periods_120/ato_0.5/", "periods_60/ato_1.5/chunkdur_0.5/")
 			base := int64(1790000000000) + int64(r.Intn(100000))
 			t1 := base
+			if strings.Contains(extra, "periods_") && r.Intn(2) == 0 {
+				// right after a period boundary: the newest Period is listed before its first segment is announced
+				t1 = base/120000*120000 + int64(r.Pick(0, 1, 300, 500, 999, 1000, 1500, a.SegmentDurMS-1))
+			}
 			t2 := t1 + int64(r.Pick(1, a.SegmentDurMS, 3*a.SegmentDurMS, a.LoopDurMS+7, 25000, (ttl+5)*1000, (ttl+20)*1000))
 			mpdPath := fmt.Sprintf("/livesim2/patch_%d/%s%s/%s/%s", ttl, extra, mode, a.AssetPath, a.MPDs[0])
 			m1 := doLive("GET", fmt.Sprintf("%s?nowMS=%d", mpdPath, t1))
@@ -503,6 +508,20 @@ func c11Flow(c *Ctx) {
 			}
 			x2, _ := parseMPD(m2.body)
 			loc := strings.TrimSpace(x1.PatchLoc[0].Value)
+			// the location names the MPD it is advertised in
+			if i := strings.Index(loc, "publishTime="); i >= 0 {
+				v := loc[i+len("publishTime="):]
+				if j := strings.IndexByte(v, '&'); j >= 0 {
+					v = v[:j]
+				}
+				if uv, err := neturl.QueryUnescape(v); err != nil || uv != x1.PublishTime {
+					c.Violate("flow-location-pt", fmt.Sprintf("the PatchLocation carries publishTime=%s, the MPD it is in has publishTime %s", v, x1.PublishTime), []string{fmt.Sprintf("# GET %s?nowMS=%d", mpdPath, t1)}, nil)
+					continue
+				}
+			} else {
+				c.Violate("flow-location-pt", "the PatchLocation carries no publishTime", []string{fmt.Sprintf("# GET %s?nowMS=%d", mpdPath, t1)}, nil)
+				continue
+			}
 			url := loc + fmt.Sprintf("&nowMS=%d", t2)
 			req := newReq("GET", url)
 			rec := newRec()
